@@ -1,10 +1,162 @@
-import JP.Driver
-import JP.Impl.Den
+import JP.Lemmas.CopySize
 
-/-! # Property C08 — theorems (see DESIGN.md §6) -/
+/-!
+# C08: a failing `Apply` returns nothing; later operations have no effect; error classes
 
-namespace JP
-namespace C08
+`Impl.applyOps` returns either the final root or an error, never both, so "a failing Apply
+returns no document" holds by the type of the model's outcome (`applyBytes` propagates
+`.err e` unchanged).  The theorems below give the remaining clauses.
+-/
 
-end C08
-end JP
+namespace JP.C08
+open JP.Impl
+
+/-- operations after the first failing one have no effect on the outcome -/
+theorem suffix_irrelevant (o : Impl.Opts) (r : Impl.Root) (acc : Int) (ops₁ : List Impl.Op)
+    (bad : Impl.Op) (ops₂ : List Impl.Op) (e : Impl.Err) :
+    Impl.applyOps o r acc (ops₁ ++ [bad]) = .err e →
+      Impl.applyOps o r acc (ops₁ ++ bad :: ops₂) = .err e := by
+  intro h
+  rw [applyOps_append] at h ⊢
+  cases h1 : applyOpsAcc o r acc ops₁ with
+  | ok p =>
+    rw [h1] at h
+    simp only [Outcome.bind] at h ⊢
+    rw [applyOps_cons] at h ⊢
+    cases h2 : applyOp o p.1 p.2 bad with
+    | ok q => rw [h2] at h; simp [Outcome.bind, applyOps] at h
+    | err e' => rw [h2] at h; exact h
+    | panic => rw [h2] at h; exact h
+  | err e' => rw [h1] at h; exact h
+  | panic => rw [h1] at h; exact h
+
+/-- the same for `applyBytes`: once a prefix of the patch fails on a document, every
+extension of the patch fails in the same way (and no document is returned) -/
+theorem suffix_irrelevant_bytes (o : Impl.Opts) (indent doc : Bytes) (ops₁ : List Impl.Op)
+    (bad : Impl.Op) (ops₂ : List Impl.Op) (e : Impl.Err) (c : Cst) (con : Node)
+    (hdoc : doc ≠ []) (hv : Scanner.valid doc = true) (hp : parseCst doc = some c)
+    (hr : decodeRoot c = .ok con) :
+    Impl.applyOps o { con := con, self := .raw c, selfCR := c.isArr && !goIsArray doc } 0 (ops₁ ++ [bad]) = .err e →
+      Impl.applyBytes o indent doc (ops₁ ++ bad :: ops₂) = .err e := by
+  intro h
+  have h' := suffix_irrelevant o _ 0 ops₁ bad ops₂ e h
+  unfold applyBytes
+  simp only [hdoc, if_false, hv, Bool.not_true, Bool.false_eq_true, hp, hr, h']
+
+/-- a successful run of a whole patch is a successful run of every prefix, continued by a
+successful run of the rest from the state (root and running copy total) the prefix left -/
+theorem prefix_ok_of_ok (o : Impl.Opts) (r : Impl.Root) (acc : Int) (ops₁ ops₂ : List Impl.Op)
+    (r' : Impl.Root) :
+    Impl.applyOps o r acc (ops₁ ++ ops₂) = .ok r' →
+      ∃ r₁ acc₁, Impl.applyOpsAcc o r acc ops₁ = .ok (r₁, acc₁) ∧ Impl.applyOps o r acc ops₁ = .ok r₁
+        ∧ Impl.applyOps o r₁ acc₁ ops₂ = .ok r' := by
+  intro h
+  rw [applyOps_append] at h
+  cases h1 : applyOpsAcc o r acc ops₁ with
+  | ok p =>
+    rw [h1] at h
+    refine ⟨p.1, p.2, rfl, ?_, h⟩
+    rw [applyOps_eq_acc, h1]; rfl
+  | err e' => rw [h1] at h; simp [Outcome.bind] at h
+  | panic => rw [h1] at h; simp [Outcome.bind] at h
+
+/-- conversely, a failing prefix makes the whole patch fail with the same error -/
+theorem err_of_prefix_err (o : Impl.Opts) (r : Impl.Root) (acc : Int) (ops₁ ops₂ : List Impl.Op)
+    (e : Impl.Err) :
+    Impl.applyOps o r acc ops₁ = .err e → Impl.applyOps o r acc (ops₁ ++ ops₂) = .err e := by
+  intro h
+  rw [applyOps_append]
+  rw [applyOps_eq_acc] at h
+  cases h1 : applyOpsAcc o r acc ops₁ with
+  | ok p => rw [h1] at h; simp [Outcome.bind] at h
+  | err e' => rw [h1] at h; exact h
+  | panic => rw [h1] at h; simp [Outcome.bind] at h
+
+/-- the test-failed class arises only from a `test` operation -/
+theorem testFailed_only_from_test (o : Impl.Opts) (r : Impl.Root) (acc : Int) (op : Impl.Op) :
+    Impl.applyOp o r acc op = .err .testFailed → op.kind = ascii "test" :=
+  applyOp_testFailed
+
+/-- the copy-size class arises only from a `copy` operation, and only with a positive limit -/
+theorem copySize_only_from_copy (o : Impl.Opts) (r : Impl.Root) (acc : Int) (op : Impl.Op) :
+    Impl.applyOp o r acc op = .err .copySize → op.kind = ascii "copy" ∧ o.limit > 0 :=
+  applyOp_copySize
+
+/-- over a whole patch: a test-failed outcome comes from a `test` operation of the patch -/
+theorem testFailed_in_patch (o : Impl.Opts) (ops : List Impl.Op) : ∀ (r : Impl.Root) (acc : Int),
+    Impl.applyOps o r acc ops = .err .testFailed → ∃ op ∈ ops, op.kind = ascii "test" := by
+  induction ops with
+  | nil => intro r acc h; simp [applyOps] at h
+  | cons op ops ih =>
+    intro r acc h
+    rw [applyOps_cons] at h
+    cases h1 : applyOp o r acc op with
+    | ok p =>
+      rw [h1] at h
+      obtain ⟨op', hm, hk⟩ := ih _ _ h
+      exact ⟨op', List.mem_cons_of_mem _ hm, hk⟩
+    | err e =>
+      rw [h1] at h
+      simp only [Outcome.bind, Outcome.err.injEq] at h
+      subst h
+      exact ⟨op, List.mem_cons_self, applyOp_testFailed h1⟩
+    | panic => rw [h1] at h; simp [Outcome.bind] at h
+
+/-- over a whole patch: a copy-size outcome comes from a `copy` operation, limit positive -/
+theorem copySize_in_patch (o : Impl.Opts) (ops : List Impl.Op) : ∀ (r : Impl.Root) (acc : Int),
+    Impl.applyOps o r acc ops = .err .copySize → (∃ op ∈ ops, op.kind = ascii "copy") ∧ o.limit > 0 := by
+  induction ops with
+  | nil => intro r acc h; simp [applyOps] at h
+  | cons op ops ih =>
+    intro r acc h
+    rw [applyOps_cons] at h
+    cases h1 : applyOp o r acc op with
+    | ok p =>
+      rw [h1] at h
+      obtain ⟨⟨op', hm, hk⟩, hl⟩ := ih _ _ h
+      exact ⟨⟨op', List.mem_cons_of_mem _ hm, hk⟩, hl⟩
+    | err e =>
+      rw [h1] at h
+      simp only [Outcome.bind, Outcome.err.injEq] at h
+      subst h
+      exact ⟨⟨op, List.mem_cons_self, (applyOp_copySize h1).1⟩, (applyOp_copySize h1).2⟩
+    | panic => rw [h1] at h; simp [Outcome.bind] at h
+
+/-! ### the hypotheses are satisfiable -/
+
+section Examples
+
+def exRoot : Root :=
+  { con := .doc [ascii "a"] [(ascii "a", .raw (.lit (ascii "1")))], self := .nil }
+def exAdd : Op := { kind := ascii "add", path := ascii "/b", value := some (.lit (ascii "2")) }
+def exTestBad : Op := { kind := ascii "test", path := ascii "/a", value := some (.lit (ascii "2")) }
+def exTestGood : Op := { kind := ascii "test", path := ascii "/a", value := some (.lit (ascii "1")) }
+def exRemove : Op := { kind := ascii "remove", path := ascii "/a" }
+def exCopy : Op := { kind := ascii "copy", path := ascii "/c", frm := some (ascii "/a") }
+
+/-- `suffix_irrelevant`: add, then a failing test; the later remove is never looked at -/
+example : applyOps {} exRoot 0 ([exAdd] ++ [exTestBad]) = .err .testFailed := rfl
+example : applyOps {} exRoot 0 ([exAdd] ++ exTestBad :: [exRemove]) = .err .testFailed :=
+  suffix_irrelevant {} exRoot 0 [exAdd] exTestBad [exRemove] _ rfl
+
+/-- `prefix_ok_of_ok`: a patch of two operations that succeeds -/
+example : ∃ r', applyOps {} exRoot 0 ([exAdd] ++ [exTestGood, exRemove]) = .ok r' := ⟨_, rfl⟩
+
+/-- `testFailed_only_from_test` -/
+example : applyOp {} exRoot 0 exTestBad = .err .testFailed := rfl
+
+/-- `copySize_only_from_copy`: the value `1` has size 1, the limit is 1 and 1 is used up -/
+example : applyOp { limit := 1 } exRoot 1 exCopy = .err .copySize := rfl
+
+end Examples
+
+end JP.C08
+
+-- #print axioms JP.C08.suffix_irrelevant
+-- #print axioms JP.C08.suffix_irrelevant_bytes
+-- #print axioms JP.C08.prefix_ok_of_ok
+-- #print axioms JP.C08.err_of_prefix_err
+-- #print axioms JP.C08.testFailed_only_from_test
+-- #print axioms JP.C08.copySize_only_from_copy
+-- #print axioms JP.C08.testFailed_in_patch
+-- #print axioms JP.C08.copySize_in_patch
